@@ -738,6 +738,7 @@ func (r *vC01Rig) observeReady(n *vC01Node, idx uint64) {
 	r.observeLocked(n, n.cc)
 	r.trace[k].Kind = "ready"
 	r.trace[k].Idx = idx
+	r.trace[k].PeerOk = n.raft.AppliedIndex() == n.raft.LastIndex()
 }
 
 func (r *vC01Rig) observeAll() {
